@@ -28,7 +28,7 @@ static inline std::string mutate_field(Ctx &c, ref::Fields &F) {
     auto pick_int = [&]() { return (!steer.empty() && c.boolean()) ? steer[c.pick(steer.size())] : ints[c.pick(ints.size())]; };
     auto nm = [&](size_t i) { return F.f[i].name; };
     auto u128s = [](ref::u128 v) { char b[64]; if (v >> 64) snprintf(b, sizeof b, "0x%llx%016llx", (unsigned long long)(v >> 64), (unsigned long long)v); else snprintf(b, sizeof b, "%llu", (unsigned long long)v); return std::string(b); };
-    switch (c.draw(11)) {
+    switch (c.draw(c.gver >= 2 ? 13 : 11)) {
     case 0: case 1: { size_t i = pick_int(); ref::Fld &x = F.f[i]; x.v = boundary_value(c); x.autoval = false; return nm(i) + ":=" + u128s(x.v); }
     case 2: { size_t i = pick_int(); ref::Fld &x = F.f[i]; int64_t d = (int64_t)c.draw(6) - 3; if (d >= 0) d++;
               if (x.autoval) { x.adj += d; return nm(i) + "(auto)+=" + std::to_string(d); }
@@ -55,6 +55,20 @@ static inline std::string mutate_field(Ctx &c, ref::Fields &F) {
               std::vector<ref::Fld> cp(F.f.begin() + s, F.f.begin() + e); for (auto &x : cp) x.name += "'"; F.f.insert(F.f.begin() + e, cp.begin(), cp.end()); return "entry " + F.f[s].name + " duplicated"; }
     case 9: { ref::Fld t = ref::fblob("trailing", c.bytes(1 + c.draw(30)), 3); F.f.push_back(t); return "trailing bytes added"; }
     case 10: { F.detached = !F.detached; return F.detached ? "magic:=ZHR1" : "magic:=ZCK1"; }
+    case 12: {  // a length field that wraps the cursor BACKWARDS: optional element whose data size is 2^64 - k.  With k = the size of
+                // the element's own id+size fields the parser lands on the same element again; the element count says how often.
+              int fi = F.find("flags"), ci = F.find("comp_type"); if (fi < 0 || ci < 0) return "none";
+              F.f[fi].v |= 2;
+              if (F.find("opt_count") < 0) { std::vector<ref::Fld> ins = {ref::fint("opt_count", 1, 1), ref::fint("opt0.id", c.draw(300), 1), ref::fint("opt0.size", 0, 1), ref::fblob("opt0.data", Bytes(), 1)}; F.f.insert(F.f.begin() + ci + 1, ins.begin(), ins.end()); }
+              std::vector<size_t> sz; for (size_t i = 0; i < F.f.size(); i++) if (F.f[i].name.size() > 5 && F.f[i].name.compare(0, 3, "opt") == 0 && F.f[i].name.compare(F.f[i].name.size() - 5, 5, ".size") == 0) sz.push_back(i);
+              if (sz.empty()) { int oc = F.find("opt_count"); F.f[oc].v = boundary_value(c); return "opt_count:=" + u128s(F.f[oc].v) + " (no element)"; }
+              size_t i = sz[c.pick(sz.size())]; ref::Fld &x = F.f[i]; ref::Fld &id = F.f[i - 1];
+              Bytes idenc; ref::ci_put_wide(idenc, id.v, id.pad); uint64_t self = idenc.size() + 10;      // id field + 10-byte size field
+              uint64_t k = c.chance(2, 3) ? self : 1 + c.draw(40);
+              x.v = ((ref::u128)1 << 64) - k; x.pad = 10; x.autoval = false; x.raw_set = false; F.f[i + 1].blob.clear();
+              ref::Fld &cnt = F.get("opt_count"); uint64_t ck = c.draw(3); cnt.v = ck == 0 ? (ref::u128)1 << 63 : ck == 1 ? ((ref::u128)1 << 64) - 1 : ck == 2 ? (ref::u128)1 << 40 : cnt.v + c.draw(3);
+              return nm(i) + ":=2^64-" + std::to_string(k) + " (cursor moves back" + (k == self ? " onto the element itself" : "") + "), opt_count:=" + u128s(cnt.v); }
+    case 13: { int fi = F.find("flags"); if (fi < 0) return "none"; F.f[fi].v ^= (ref::u128)1 << (3 + c.draw(60)); return "flags:=" + u128s(F.f[fi].v); }   // unknown flag bits, incl. 32..63
     default: { int fi = F.find("flags"); if (fi < 0) return "none"; F.f[fi].v ^= (ref::u128)1 << c.draw(3); return "flags:=" + u128s(F.f[fi].v); }
     }
 }
